@@ -20,7 +20,7 @@ RULE = (
     "on every backend; ladders dt = 0.5/2^k for RC relaxation with bwd_euler/fwd_euler (order 1) and crank_nicolson (order 2); steady state "
     "under constant current I/(gA) for the unit constants; distinct = (cable, backend) ladders with decreasing error"
 )
-REQUIRED_COVER = ["space_order_2", "time_order_1_bwd", "time_order_1_fwd", "time_order_2_cn", "unit_constants", "long_cable", "short_cable",
+REQUIRED_COVER = ["branched_cable_cm_ne_1", "space_order_2", "time_order_1_bwd", "time_order_1_fwd", "time_order_2_cn", "unit_constants", "long_cable", "short_cable",
                   "backend:jaxley.stone", "backend:jaxley.thomas", "backend:jax.sparse"]
 ASSUMPTIONS = [
     "a finite refinement ladder is evidence of the limit, not the limit; observed orders must lie within +-0.3 (space) / +-0.1 (time) of the nominal order on the last two rungs",
@@ -54,6 +54,27 @@ def _cable(n, r, L, ra, g, cm=1.0):
     return br
 
 
+def _cable_as_cell(n_per_branch, nbranches, r, L, ra, g, cm):
+    """The same uniform sealed cable built as a Cell of `nbranches` branches in series (branch points are interior
+    points of the cable, so the analytic solution is unchanged)."""
+    J = build.jx()
+    from jaxley.channels import Leak
+
+    comp = J.Compartment()
+    br = J.Branch([comp] * n_per_branch)
+    cell = J.Cell([br] * nbranches, parents=[-1] + list(range(nbranches - 1)))
+    n = n_per_branch * nbranches
+    cell.set("radius", r)
+    cell.set("length", L / n)
+    cell.set("axial_resistivity", ra)
+    cell.set("capacitance", cm)
+    cell.insert(Leak())
+    cell.set("Leak_gLeak", g)
+    cell.set("Leak_eLeak", E_LEAK)
+    cell.set("v", E_LEAK)
+    return cell
+
+
 def _green(x, x0, L, lam, r_um, ra, g):
     """Steady-state depolarisation (mV) at x for I_NA injected at x0 into a sealed cable (all lengths um)."""
     r_cm = r_um * 1e-4
@@ -65,7 +86,7 @@ def _green(x, x0, L, lam, r_um, ra, g):
     return I_NA * 1e-9 * val * 1e3  # nA * ohm -> V -> mV
 
 
-def space_ladder(geom, backend):
+def space_ladder(geom, backend, nbranches=1, cm=1.0):
     r, Lrel, ra, g = geom
     lam = _lambda_um(r, ra, g)
     L = Lrel * lam
@@ -73,7 +94,7 @@ def space_ladder(geom, backend):
     peak = None
     for k in range(5):
         n = 4 * 2**k
-        br = _cable(n, r, L, ra, g)
+        br = _cable(n, r, L, ra, g, cm) if nbranches == 1 else _cable_as_cell(n // nbranches, nbranches, r, L, ra, g, cm)
         vs, _ = build.eager_step(br, "bwd_euler", backend, 1e9, {"i": np.asarray([I_NA])}, {"i": np.asarray([0])}, nsteps=1)
         sim = np.asarray(vs[1]) - E_LEAK
         h = L / n
@@ -118,20 +139,24 @@ def work(item):
 
     if item["part"] == "space":
         geom, backend = tuple(item["geom"]), item["backend"]
+        nb, cm = int(item.get("nbranches", 1)), float(item.get("cm", 1.0))
         try:
-            errs, peak = space_ladder(geom, backend)
+            errs, peak = space_ladder(geom, backend, nb, cm)
         except Exception as e:
             viol("raised", f"{type(e).__name__}: {str(e)[:200]}", part="space")
             return out
         out["evals"] += 5
         od = orders(errs)
         out["cover"] += [f"backend:{backend}", "long_cable" if geom[1] > 1 else "short_cable"]
+        if nb > 1 and cm != 1.0:
+            out["cover"].append("branched_cable_cm_ne_1")
         ok = all(1.7 <= o <= 2.3 for o in od[-2:]) and errs[-1] < 2e-3 * peak
         if ok:
             out["cover"].append("space_order_2")
-            out["digests"].append(digest([geom, backend]))
+            out["digests"].append(digest([geom, backend, nb, cm]))
         else:
-            viol("space_convergence", f"errors {errs} orders {od} peak {peak}", backend_family="sparse" if backend == "jax.sparse" else "jaxley")
+            viol("space_convergence", f"errors {errs} orders {od} peak {peak} (nbranches {nb}, cm {cm})",
+                 backend_family="sparse" if backend == "jax.sparse" else "jaxley", branched=nb > 1)
         out["sample"] = dict(item, errors=errs, orders=od)
     elif item["part"] == "time":
         scheme, backend = item["scheme"], item["backend"]
@@ -181,6 +206,15 @@ def explore(ctx):
             if ctx.tier == "quick" and b == "jaxley.thomas" and g[2] == 1000.0:
                 continue
             items.append({"part": "space", "geom": list(g), "backend": b})
+    # the same cables built as cells of 2 and 4 branches in series, with capacitance != 1 (steady state does not depend on c_m)
+    for g in geoms:
+        if ctx.tier == "quick" and not (g[0] == 2.0 and g[2] == 100.0):
+            continue
+        for b in BACKENDS:
+            for nb, cm in ((2, 2.5), (4, 0.6)):
+                if ctx.tier == "quick" and b == "jaxley.thomas" and nb == 4:
+                    continue
+                items.append({"part": "space", "geom": list(g), "backend": b, "nbranches": nb, "cm": cm})
     rc_params = [(1.0, 10.0, 1e-4, 1.0), (2.0, 5.0, 1e-3, 2.0)] if ctx.tier == "quick" else [(1.0, 10.0, 1e-4, 1.0), (2.0, 5.0, 1e-3, 2.0), (0.5, 20.0, 3e-4, 0.7)]
     for p in rc_params:
         for scheme in ("bwd_euler", "crank_nicolson", "fwd_euler"):
